@@ -180,6 +180,13 @@ func runTwin(tp *sim.Tape, tier string, o *runOut) {
 	n := 2 + tp.Choose(maxN-1, "n")
 	t := 2 + tp.Choose(n-1, "t")
 	base := time.Date(2024, 1, 1, 0, 0, 0, 0, time.UTC)
+	if tp.Choose(12, "endOfTime?") == 0 {
+		// time stamps are whatever the senders write (the opening proposal is not even
+		// authenticated): a round dated so late that its deadlines fall behind the last
+		// year a time stamp can be written down in
+		base = []time.Time{time.Date(9999, 12, 27, 12, 0, 0, 0, time.UTC), time.Date(9999, 12, 24, 23, 59, 56, 0, time.UTC)}[tp.Choose(2, "endOfTimeBase")]
+		o.stats.Fault("round-dated-at-the-end-of-representable-time")
+	}
 	f := NewFixture(n, t, tp.Seed, base)
 	m := NewModel(n, t)
 	a := &twin{}
